@@ -19,6 +19,12 @@ FromDayTimeAct(D) == cur = Anchor /\ DayTimeOnly(D) /\ last' = [op |-> "fromDayA
 NegAct == last' = [op |-> "negated", a |-> cur, out |-> Ok(NegDur(cur))] /\ cur' = NegDur(cur)
 AbsAct == last' = [op |-> "abs", a |-> cur, out |-> Ok(AbsDur(cur))] /\ cur' = AbsDur(cur)
 SignAct == last' = [op |-> "sign", a |-> cur, out |-> Ok(DurSign(cur))] /\ cur' = cur
+\* the same calls with every zero field handed over as the double -0.0: a duration's fields are mathematical integers, and -0.0 IS zero -
+\* it has no sign, does not make a duration negative or mixed-sign, and a duration of such fields is the zero duration
+NewNzAct(D) == last' = [op |-> "new", d |-> D, nz |-> TRUE, out |-> DurNew(D)] /\ cur' = cur
+NegNzAct == last' = [op |-> "negated", a |-> cur, nz |-> TRUE, out |-> Ok(NegDur(cur))] /\ cur' = cur
+AbsNzAct == last' = [op |-> "abs", a |-> cur, nz |-> TRUE, out |-> Ok(AbsDur(cur))] /\ cur' = cur
+SignNzAct == last' = [op |-> "sign", a |-> cur, nz |-> TRUE, out |-> Ok(DurSign(cur))] /\ cur' = cur
 InRangeAct == last' = [op |-> "timeInRange", a |-> cur, out |-> Ok(TimeFieldsInRange(cur))] /\ cur' = cur
 AddAct(b) == LET o == DurAdd(cur, b) IN last' = [op |-> "add", a |-> cur, b |-> b, out |-> o] /\ cur' = Move(o)
 SubAct(b) == LET o == DurSub(cur, b) IN last' = [op |-> "subtract", a |-> cur, b |-> b, out |-> o] /\ cur' = Move(o)
@@ -32,6 +38,7 @@ Next == /\ (OneStep => last = None)
            \/ \E D \in Candidates, S \in KeySets : FromPartialAct(D, S)
            \/ \E D \in Candidates : FromDayTimeAct(D)
            \/ NegAct \/ AbsAct \/ SignAct \/ InRangeAct
+           \/ NegNzAct \/ AbsNzAct \/ SignNzAct \/ (\E D \in Candidates : NewNzAct(D))
            \/ \E b \in Durs : AddAct(b) \/ SubAct(b) \/ CmpAct(b)
            \/ \E o \in RoundOpts : RoundAct(o)
            \/ \E u \in {"day", "hour", "minute", "second", "millisecond", "microsecond", "nanosecond", "week", "auto"} : TotalAct(u)
